@@ -275,6 +275,17 @@ def CATALOGUE():
     add("combine_latest", ["combinelatest"], lambda W, S, P, s: S[0].pipe(ops.combine_latest(S[1])), 2)
     add("with_latest_from", ["withlatestfrom"], lambda W, S, P, s: S[0].pipe(ops.with_latest_from(S[1])), 2)
     add("fork_join", ["forkjoin"], lambda W, S, P, s: S[0].pipe(ops.fork_join(S[1])), 2)
+    dur = lambda s, t: (lambda _: rx.timer(t, scheduler=s))  # noqa  a duration window that closes t ticks after its element
+    add("join", ["_join"], lambda W, S, P, s: S[0].pipe(ops.join(S[1], dur(s, P["t"]), dur(s, P["t2"]))), 2)
+    add("join_swapped", ["_join"], lambda W, S, P, s: S[1].pipe(ops.join(S[0], dur(s, P["t2"]), dur(s, P["t"]))), 2)
+    add("group_join", ["_groupjoin"], lambda W, S, P, s: S[0].pipe(
+        ops.group_join(S[1], dur(s, P["t"]), dur(s, P["t2"])),
+        ops.flat_map(lambda t: t[1].pipe(ops.to_list(), ops.map(lambda l: (t[0], l))))), 2)
+    add("buffer_toggle", ["_buffer", "_window", "_groupjoin"], lambda W, S, P, s: S[0].pipe(ops.buffer_toggle(S[1], dur(s, P["t"]))), 2)
+    add("window_toggle", ["_window", "_groupjoin"], lambda W, S, P, s: S[0].pipe(
+        ops.window_toggle(S[1], dur(s, P["t"])), ops.flat_map(lambda w: w.pipe(ops.to_list()))), 2)
+    add("buffer_when", ["_buffer", "_window"], lambda W, S, P, s: S[0].pipe(ops.buffer_when(lambda: rx.timer(P["t"] + 5, scheduler=s))))
+    add("last_pred_none_default", ["_last", "_lastordefault"], lambda W, S, P, s: S[0].pipe(ops.last_or_default(None, fn(W, P, "pred"))))
     add("merge", ["_merge", "merge"], lambda W, S, P, s: S[0].pipe(ops.merge(S[1])), 2)
     add("concat", ["concat"], lambda W, S, P, s: S[0].pipe(ops.concat(S[1])), 2)
     add("amb", ["_amb"], lambda W, S, P, s: S[0].pipe(ops.amb(S[1])), 2)
@@ -340,6 +351,11 @@ def _rand_timeline(rng, alphabet, hot=True):
     for _ in range(n):
         t += rng.choice([5, 10, 10, 20])
         out.append([t, ["N", rng.choice(alphabet)]])
+    if out and rng.random() < 0.5:
+        # the LAST element before the terminal is where "no value yet" sentinels show: make it falsy, None first
+        fa = [i for i in alphabet if i < 8]
+        if fa:
+            out[-1][1] = ["N", 0 if (0 in alphabet and rng.random() < 0.6) else rng.choice(fa)]
     k = rng.choice(["C", "C", "C", "E", "open"])
     t += rng.choice([5, 10])
     if k == "C":
@@ -355,12 +371,15 @@ def gen_nat_case(rng, weights=None):
     zero = rng.choice(ZEROISH)
     pool = [i for i in range(len(FALSY)) if i not in ZEROISH or i == zero]
     alphabet = rng.sample(pool, rng.choice([1, 2, 3, 4]))
+    if 0 not in alphabet and rng.random() < 0.4:
+        alphabet[rng.randrange(len(alphabet))] = 0  # None is the value most often confused with "absent"
     spec_v = lambda: ["v", rng.choice(pool)]  # noqa
 
     def table(result):
         return {"tab": {str(i): result() for i in alphabet}, "dflt": result()}
 
-    P = {"n": rng.choice([0, 1, 1, 2, 3]), "n2": rng.choice([0, 1, 2, 5]), "t": rng.choice([5, 10, 20, 30]), "flag": rng.random() < 0.5,
+    P = {"n": rng.choice([0, 1, 1, 2, 3]), "n2": rng.choice([0, 1, 2, 5]), "t": rng.choice([5, 10, 20, 30]), "t2": rng.choice([5, 10, 15, 30]),
+         "flag": rng.random() < 0.5,
          "d": rng.choice(pool), "d2": rng.choice(pool), "seq": [rng.choice(alphabet) for _ in range(rng.choice([0, 1, 2, 4]))],
          "pred": table(lambda: (["raise", "cb"] if rng.random() < 0.04 else ["b", rng.random() < 0.6])),
          "map": table(spec_v), "ikey": table(lambda: ["i", rng.randrange(3)])}
@@ -643,6 +662,12 @@ def scan_scope(rel, scope_name, funcs, sites):
         k = expr_key(e)
         return k is not None and k in tainted
 
+    for f in funcs:  # parameters that default to None act as None sentinels (`value[0] is default_value`)
+        a = f.args
+        pos = a.posonlyargs + a.args
+        for arg, dflt in list(zip(pos[len(pos) - len(a.defaults):], a.defaults)) + list(zip(a.kwonlyargs, a.kw_defaults)):
+            if isinstance(dflt, ast.Constant) and dflt.value is None:
+                none_names.add(arg.arg)
     for _ in range(4):
         for f in funcs:
             for node in ast.walk(f):
@@ -699,8 +724,8 @@ def scan_scope(rel, scope_name, funcs, sites):
                         stack.append(x.operand)
                     elif isinstance(x, ast.BoolOp):
                         stack += x.values
-                    elif is_t(x) and not isinstance(x, ast.Call):
-                        add("truthiness", f, node, x)
+                    elif is_t(x) and (not isinstance(x, ast.Call) or (isinstance(x.func, ast.Attribute) and x.func.attr in ("get", "pop", "popleft"))):
+                        add("truthiness", f, node, x)  # incl. `if d.get(k):` / `if q.pop():` on a container that holds elements
             if isinstance(node, ast.Compare) and len(node.ops) == 1:
                 l, r, op = node.left, node.comparators[0], node.ops[0]
                 def is_none(e):
